@@ -1,7 +1,8 @@
 """
 Sequential reference model of the five merge strategies, written from the statement of C05.  Never imports gffutils.
 
-record = {seqid, source, featuretype, start, end, score, strand, frame (str as written), attrs: [[key, [values]], ...]}
+record = {seqid, source, featuretype, start, end, score, strand, frame (str as written), attrs: [[key, [values]], ...],
+          extra: [10th, 11th, ... tab-separated fields]}
 An arrival is (key, record); the key is what id_spec derives (here: the single value of the id attribute).
 """
 COLS = ("seqid", "source", "featuretype", "start", "end", "score", "strand", "frame")
@@ -24,8 +25,16 @@ def subsets(fields=FORCEABLE):
     return out
 
 
+def far_apart(a, b, gap=1000000):
+    """Two features with defined coordinates that start >= `gap` bases apart (certainly not in one small genomic bin)."""
+    try:
+        return abs(int(a["start"]) - int(b["start"])) >= gap
+    except ValueError:
+        return False
+
+
 class Entry(object):
-    __slots__ = ("cols", "forced", "attrs", "arrivals", "merged")
+    __slots__ = ("cols", "forced", "attrs", "arrivals", "merged", "rec", "extra")
 
     def __init__(self, rec, force, arrival):
         self.cols = dict((c, rec[c]) for c in COLS)
@@ -34,6 +43,8 @@ class Entry(object):
         self.attrs = dict((k, list(v)) for k, v in rec["attrs"])
         self.arrivals = [arrival]
         self.merged = False
+        self.rec = rec                              # the arrival itself: while not merged the stored feature IS this line
+        self.extra = list(rec.get("extra") or [])   # fields after the attribute column
 
 
 class Store(object):
@@ -51,6 +62,7 @@ class Store(object):
         self.count = 0
         self.batch = 0      # index of the import run (0 = create_db) the next arrival belongs to
         self.runs = []      # per arrival: index of the import run
+        self.moved = set()  # keys under which 'replace' put a feature >= 1 Mb away from the one it replaced
         self.stats = {}     # what the history exercised (valueless keys met in a union, '.' coordinates in a collision)
 
     def _stat(self, name):
@@ -90,6 +102,11 @@ class Store(object):
                 self._stat("collision: %s is '.' on both (columns agree)" % c)
             elif a == "." or b == ".":
                 self._stat("collision: %s is '.' on one side only (columns differ)" % c)
+        old = self.feats[key]
+        if old.extra != list(rec.get("extra") or []):
+            self._stat("%s: colliding arrivals differ in their extra columns" % st)
+        if far_apart(old.cols, rec):
+            self._stat("%s: colliding arrivals lie >= 1 Mb apart" % st)
         if st == "error":
             raise Abort(key)
         if st == "warning":
@@ -99,6 +116,8 @@ class Store(object):
             for label, lk in self.link_keys:
                 if self.feats[key].attrs.get(lk) != dict((k, v) for k, v in rec["attrs"]).get(lk):
                     self._stat("replace: the replacement names a different %s parent" % label)
+            if far_apart(old.cols, rec):
+                self.moved.add(key)
             self.feats[key] = Entry(rec, (), arrival)     # keeps the last
             self._log("replaced")
             return key
@@ -110,6 +129,9 @@ class Store(object):
         # ---- merge
         cands = [key] + list(self.spawn.get(key, []))
         agreeing = [c for c in cands if self.agrees(self.feats[c], rec)]
+        if any(self.feats[c].extra != list(rec.get("extra") or []) for c in agreeing):
+            # are the fields after the attribute column among the "other columns" that must agree?
+            raise Silent("merge of features whose extra columns differ")
         if len(agreeing) > 1:
             raise Silent("two candidates agree with the newcomer")
         if not agreeing:
@@ -147,7 +169,8 @@ class Store(object):
 
     # ---- what must be in the database ------------------------------------
     def expected(self):
-        """key -> {"cols": {col: str | ("tokens", frozenset)}, "attrs": {k: sorted values}}"""
+        """key -> {"cols": {col: str | ("tokens", frozenset)}, "attrs": {k: sorted values}, "merged": bool,
+        "extra": [fields after the attribute column], "rec": the one arrival the feature is (None once merged)}"""
         out = {}
         for key, e in self.feats.items():
             cols = {}
@@ -156,7 +179,8 @@ class Store(object):
                     cols[c] = ("tokens", frozenset(e.forced[c]))
                 else:
                     cols[c] = e.cols[c]
-            out[key] = {"cols": cols, "attrs": dict((k, sorted(v)) for k, v in e.attrs.items()), "merged": e.merged}
+            out[key] = {"cols": cols, "attrs": dict((k, sorted(v)) for k, v in e.attrs.items()), "merged": e.merged,
+                        "extra": list(e.extra), "rec": None if e.merged else e.rec}
         return out
 
     def links(self, link_key):
